@@ -91,7 +91,7 @@ class Run:
             cfg = ("INIT Init2\nNEXT Next\nINVARIANT Theorems2\nINVARIANT Emit2\n"
                    "CONSTANTS FAMILY = \"%s\" TYPES = {%s} TIER = \"%s\" SEED = %d %s\n"
                    % (family, ",".join(map(str, part)), tier, self.seed % 1000003, extra_consts))
-            rc, text, path = self.tlc("Gen2", cfg, name, xmx="4g", xss="64m")
+            rc, text, path = self.tlc("Gen2", cfg, name, xmx="4g", xss="512m")
             if rc != 0 or "No error has been found" not in text:
                 raise Infra("generator %s failed (rc %s); see %s\n%s" % (name, rc, path, tail(text)))
             out = parse_progs(text)
@@ -156,8 +156,11 @@ class Run:
                 f.write(json.dumps(pr, separators=(",", ":")) + "\n")
         outp = os.path.join(self.dir, tag + ".trace")
         t0 = time.time()
+        env = dict(os.environ)
+        if race:
+            env["MQDRIVE_PROCS"] = "all"
         p = subprocess.run([binp, "run", "-in", inp, "-out", outp, "-workers", str(workers),
-                            "-timeout", str(timeout_ms), "-mem", str(mem_mib)], capture_output=True, text=True)
+                            "-timeout", str(timeout_ms), "-mem", str(mem_mib)], capture_output=True, text=True, env=env)
         if p.returncode != 0:
             raise Infra("driver failed (rc %d): %s" % (p.returncode, p.stderr[-2000:]))
         shards = sorted([os.path.join(self.dir, x) for x in os.listdir(self.dir)
